@@ -241,9 +241,10 @@ class Ctx:
                 if f["kind"] == "wo" and f["name"] not in init:
                     init[f["name"]] = self.dec_value(f["dv"]) if f["dk"] != "req" else None
             obj = cls(**init)
+            # the encoded value is the state of the instance (a __post_init__ must not be applied twice)
             for f in spec["fields"]:
-                if f["kind"] == "ro" and f["name"] in vals:
-                    object.__setattr__(obj, f["name"], vals[f["name"]])
+                if f["kind"] != "wo" and f["name"] in vals:
+                    obj.__dict__[f["name"]] = vals[f["name"]]
             return obj
         raise ValueError(f"bad value {v}")
 
@@ -340,7 +341,8 @@ def cons_kwargs(cons: list) -> str:
 def type_expr(T: dict) -> str:
     k = T["k"]
     if k == "prim":
-        return {"none": "NoneType", "bool": "bool", "int": "int", "float": "float", "str": "str"}[T["p"]]
+        return {"none": "NoneType", "bool": "bool", "int": "int", "float": "float", "str": "str",
+                "undef": "UndefinedType"}[T["p"]]
     if k == "any":
         return "Any"
     if k == "coll":
@@ -447,6 +449,14 @@ def field_source(cname: str, f: dict, kind: str) -> Tuple[str, List[str]]:
     return texpr, md
 
 
+def td_type(f: dict) -> str:
+    """TypedDict keys carry their metadata in Annotated."""
+    t = type_expr(f["type"])
+    if f["alias"] != f["name"]:
+        return f"Annotated[{t}, alias({f['alias']!r})]"
+    return t
+
+
 def class_source(name: str, spec: dict) -> str:
     kind = spec["kind"]
     lines: List[str] = []
@@ -479,6 +489,13 @@ def class_source(name: str, spec: dict) -> str:
         if spec.get("depreq"):
             dr = "{" + ", ".join(f"{a!r}: {list(bs)!r}" for a, bs in spec["depreq"]) + "}"
             body.append(f"    _depreq = dependent_required({dr})")
+        if spec.get("postinc") and not spec.get("bases"):
+            body.append("    def __post_init__(self):")
+            body.append(f"        self.{spec['postinc']} = self.{spec['postinc']} + 100")
+        for m in spec.get("smethods", ()):
+            body.append(f"    @serialized({m['alias']!r})")
+            body.append(f"    def {m['name']}(self) -> {type_expr(m['rtype'])}:")
+            body.append(f"        return copy.deepcopy(_D[{name + '.' + m['name']!r}])")
         body.extend(spec.get("extra_body", ()))
         lines.extend(body or ["    pass"])
     elif kind == "namedtuple":
@@ -495,15 +512,15 @@ def class_source(name: str, spec: dict) -> str:
         if req and opt:
             lines.append(f"class _{name}Req(TypedDict):")
             for f in req:
-                lines.append(f"    {f['name']}: {type_expr(f['type'])}")
+                lines.append(f"    {f['name']}: {td_type(f)}")
             lines.append(f"class {name}(_{name}Req, total=False):")
             for f in opt:
-                lines.append(f"    {f['name']}: {type_expr(f['type'])}")
+                lines.append(f"    {f['name']}: {td_type(f)}")
         else:
             total = "" if req or not opt else ", total=False"
             lines.append(f"class {name}(TypedDict{total}):")
             for f in spec["fields"]:
-                lines.append(f"    {f['name']}: {type_expr(f['type'])}")
+                lines.append(f"    {f['name']}: {td_type(f)}")
             if not spec["fields"]:
                 lines.append("    pass")
     else:
@@ -602,6 +619,11 @@ class _LazyDefaults(dict):
         for f in self.classes[cname]["fields"]:
             if f["name"] == fname:
                 val = self.ctx.dec_value(f["dv"])
+                self[key] = val
+                return val
+        for m in self.classes[cname].get("smethods", ()):
+            if m["name"] == fname:
+                val = self.ctx.dec_value(m["rv"])
                 self[key] = val
                 return val
         raise KeyError(key)
